@@ -48,24 +48,24 @@ func init() {
 var c15Sanctioned = map[string][]string{
 	"converter.ToSPDX23": {
 		// end of the inventory
-		"builtin.len(param0.Inventory.Packages) <= (φ:int+1:int)",
+		"range-end: param0.Inventory.Packages",
 		// a package whose extractor produces no package URL cannot be referenced from SPDX
-		"converter.ToPURL(param0.Inventory.Packages[(φ:int+1:int)]) == nil:*github.com/google/osv-scalibr/purl.PackageURL",
+		"extractor.Extractor.ToPURL(param0.Inventory.Packages[ι].Extractor,param0.Inventory.Packages[ι]) == nil:*github.com/google/osv-scalibr/purl.PackageURL",
 		// SPDX requires a name and a version; both are the package URL's, and so is the test
-		"builtin.len(converter.ToPURL(param0.Inventory.Packages[(φ:int+1:int)]).Name) == 0",
-		"builtin.len(converter.ToPURL(param0.Inventory.Packages[(φ:int+1:int)]).Version) == 0",
+		"builtin.len(extractor.Extractor.ToPURL(param0.Inventory.Packages[ι].Extractor,param0.Inventory.Packages[ι]).Name) == 0",
+		"builtin.len(extractor.Extractor.ToPURL(param0.Inventory.Packages[ι].Extractor,param0.Inventory.Packages[ι]).Version) == 0",
 	},
 	// ToCDX exports every package
-	"converter.ToCDX": {"builtin.len(param0.Inventory.Packages) <= (φ:int+1:int)"},
+	"converter.ToCDX": {"range-end: param0.Inventory.Packages"},
 	// importers: an entry is left out only when it has neither a parsable package URL nor a CPE
 	// (the PURL == nil half of the conjunction is not a skip edge by itself: CPE-only entries are kept)
 	"extractor/filesystem/sbom/spdx.Extractor.convertSpdxDocToPackage": {
-		"builtin.len(param1.Packages) <= (φ:int+1:int)",
+		"range-end: param1.Packages",
 		"builtin.len(local:*extractor.Package.Metadata.(*spdx.Metadata).CPEs) == 0 && local:*extractor.Package.Metadata.(*spdx.Metadata).PURL == nil:*github.com/google/osv-scalibr/purl.PackageURL",
 	},
 	"extractor/filesystem/sbom/cdx.enumerateComponents": {
-		"builtin.len(param0) <= (φ:int+1:int)",
-		"extractor/filesystem/sbom/cdx.convertComponentToInventory(‹param0[(φ:int+1:int)]›) == nil:*github.com/google/osv-scalibr/extractor.Package",
+		"range-end: param0",
+		"extractor/filesystem/sbom/cdx.convertComponentToInventory(param0[ι]) == nil:*github.com/google/osv-scalibr/extractor.Package",
 	},
 	"extractor/filesystem/sbom/cdx.convertComponentToInventory": {
 		"builtin.len(local:*extractor.Package.Metadata.(*cdx.Metadata).CPEs) == 0 && local:*extractor.Package.Metadata.(*cdx.Metadata).PURL == nil:*github.com/google/osv-scalibr/purl.PackageURL",
@@ -890,7 +890,7 @@ func c15Omissions(p *Prog, r *Report) {
 			r.OK("D4-omissions", key+":none", p.Pos(fn.Pos()), "every entry is carried over, no omission")
 		}
 		for x, c := range got {
-			if c > wantN[x] {
+			if _, audited := wantN[x]; !audited && c > 0 {
 				r.Fail("D4-omissions", key+":new:"+short(x, 140), p.Pos(fn.Pos()), "a decision that leaves the current entry out of the result is not among the audited omissions: "+x+" (an export the importer filters, or an importer/exporter that filters on something other than the package URL, breaks the round trip)")
 			} else {
 				r.OK("D4-omissions", key+":"+short(x, 140), p.Pos(fn.Pos()), "audited omission")
